@@ -115,6 +115,70 @@ pub fn pl0_register(
     paths_total
 }
 
+
+// ---- the worker spawn loop: a source is listened to (has a registered channel) exactly when its worker was started
+#[verifier::external_body]
+pub struct ChanSendDatum { _p: u8 }
+#[verifier::external_body]
+pub struct ChanRecvDatum { _p: u8 }
+#[verifier::external_body]
+pub struct ThreadInitData { _p: u8 }
+#[verifier::external_body]
+pub struct JoinStub { _p: u8 }
+#[verifier::external_body]
+pub struct ColorStub { _p: u8 }
+pub type MapPathIdChanRecvDatum = BTreeMap<PathId, ChanRecvDatum>;
+pub type MapPathIdToColor = HashMap<PathId, ColorStub>;
+/// stand-in (R9) for `crossbeam_channel::bounded(CHANNEL_CAPACITY)`
+#[verifier::external_body]
+pub fn verif_bounded() -> (ChanSendDatum, ChanRecvDatum) { unimplemented!() }
+/// stand-in (R9) for `thread::Builder::new().name(..).spawn(move || exec_fileprocessor_thread(chan_send_dt, thread_data))`
+#[verifier::external_body]
+pub fn verif_spawn(name: FPath, chan_send_dt: ChanSendDatum, thread_data: ThreadInitData) -> core::result::Result<JoinStub, IoErr> { unimplemented!() }
+#[verifier::external_body]
+pub fn basename(path: &FPath) -> FPath { unimplemented!() }
+
+#[verifier::exec_allows_no_decreases_clause]
+pub fn pl0_spawn(
+    pathid: &PathId,
+    path: &FPath,
+    thread_data: ThreadInitData,
+    map_pathid_chanrecvdatum: &mut MapPathIdChanRecvDatum,
+    map_pathid_color: &mut MapPathIdToColor,
+    thread_count_in: usize,
+    thread_err_count_in: usize,
+) -> (r: (usize, usize))
+    requires thread_count_in < usize::MAX, thread_err_count_in < usize::MAX, !old(map_pathid_chanrecvdatum)@.contains_key(*pathid)
+    ensures
+        // C06: the coordinator listens to a source (a channel is registered for it) exactly when its worker was started:
+        // a channel whose worker never started would never be closed, and the coordinator would wait on it for ever
+        final(map_pathid_chanrecvdatum)@.contains_key(*pathid) <==> r.0 == thread_count_in + 1,
+        r.0 == thread_count_in + 1 || (r.0 == thread_count_in && r.1 == thread_err_count_in + 1),
+        forall|k: PathId| k != *pathid ==> (#[trigger] final(map_pathid_chanrecvdatum)@.contains_key(k) <==> old(map_pathid_chanrecvdatum)@.contains_key(k)),
+{
+    proof { broadcast use group_btree_axioms; broadcast use vstd::std_specs::hash::group_hash_axioms; }
+    let mut thread_count: usize = thread_count_in;
+    let mut thread_err_count: usize = thread_err_count_in;
+    loop
+        invariant_except_break
+            thread_count == thread_count_in, thread_err_count == thread_err_count_in, thread_count_in < usize::MAX, thread_err_count_in < usize::MAX,
+            map_pathid_chanrecvdatum@ == old(map_pathid_chanrecvdatum)@, !old(map_pathid_chanrecvdatum)@.contains_key(*pathid),
+        ensures
+            map_pathid_chanrecvdatum@.contains_key(*pathid) <==> thread_count == thread_count_in + 1,
+            thread_count == thread_count_in + 1 || (thread_count == thread_count_in && thread_err_count == thread_err_count_in + 1),
+            forall|k: PathId| k != *pathid ==> (#[trigger] map_pathid_chanrecvdatum@.contains_key(k) <==> old(map_pathid_chanrecvdatum)@.contains_key(k)),
+    {
+//@cut slice path=src/bin/s4.rs fn=processing_loop anchor="let (chan_send_dt, chan_recv_dt): (ChanSendDatum, ChanRecvDatum) =" take=range end_anchor="match thread::Builder::new()" label=PL0-SPAWN
+//@replace "crossbeam_channel::bounded(CHANNEL_CAPACITY)" "verif_bounded()"
+//@replace "MAP_PATHID_CHANRECVDATUM.write().unwrap()" "map_pathid_chanrecvdatum" count=2
+//@replace "thread::Builder::new() .name(basename_.clone()) .spawn(move || exec_fileprocessor_thread(chan_send_dt, thread_data))" "verif_spawn(basename_.clone(), chan_send_dt, thread_data)" ws=1
+//@replace "continue;" "break;"
+//@end
+        break;
+    }
+    (thread_count, thread_err_count)
+}
+
 /// vacuity guard: must NOT verify
 pub proof fn reg__canary(a: Map<PathId, bool>, b: Map<PathId, FPath>)
     requires a.dom() =~= b.dom(), a.contains_key(3)
